@@ -152,9 +152,9 @@ Section Locks.
     assert (NN : forall s', no_new s s' -> Chain s') by (intros s' N; now apply (Chain_no_new s)).
     destruct f; cbn [step].
     - (* FVisit *) destruct (completed (st s n)); [exact C|]. destruct (negb (started (st s n))).
-      + unfold thr_loop. destruct (awaiting p e s n); [destruct (in_ended_block p s n); exact C|]. unfold enter. apply NN. nn.
+      + unfold thr_loop. destruct (awaiting p e s n); [destruct (ended_here p s n k); exact C|]. unfold enter. apply NN. nn.
       + unfold enter. apply NN. nn.
-    - (* FThr *) unfold thr_loop. destruct (awaiting p e s n); [destruct (in_ended_block p s n); exact C|]. unfold enter. apply NN. nn.
+    - (* FThr *) unfold thr_loop. destruct (awaiting p e s n); [destruct (ended_here p s n k); exact C|]. unfold enter. apply NN. nn.
     - (* FNodeTick: dispatch *) unfold dispatch. destruct (n_kind (nd p n)) eqn:K.
       + destruct (completed (st s n)); exact C.
       + destruct trailing; apply NN; nn.
@@ -191,7 +191,7 @@ Section Locks.
     - exact C.
     - destruct (_ || _); exact C.
     - (* FKids *) destruct (nth_error (n_children (nd p n)) i) as [c|]; [|apply NN; nn].
-      destruct (_ || _); [apply NN; nn|]. destruct (Nat.ltb i _); [exact C|]. destruct (in_ended_block p s c); [apply NN; nn|exact C].
+      destruct (_ || _); [apply NN; nn|]. destruct (Nat.ltb i _); [exact C|]. destruct (ended_here p s c k); [apply NN; nn|exact C].
     - apply NN. nn.
     - exact C.
     - exact C.
